@@ -67,7 +67,9 @@ def cases(draw):
             'policy': draw(st.sampled_from([None, None, None, 'bib', 'bcb'])),
             # the payload is an administrative record (a status report about a subject with a long name), handed over as
             # payload object when originated and decoded into one when received
-            'admin': draw(st.sampled_from([False, False, False, True]))}
+            'admin': draw(st.sampled_from([False, False, False, True])),
+            # originated bundles only: the payload block is handed over without a block number (send_bundle assigns it)
+            'unnumbered': draw(st.sampled_from([False, False, True]))}
 
 
 def strategy(tier):
@@ -78,6 +80,8 @@ def enumerate_cases(tier):
     for case in _policy_cases(tier):
         yield case
     for case in _admin_cases(tier):
+        yield case
+    for case in _unnumbered_cases(tier):
         yield case
     lengths = [24, 256, 1000] if tier == 'quick' else [1, 23, 24, 255, 256, 1000, 65535, 65536]
     offsets = [-1, 0, 1, 2, 3, 12, 24, 256] if tier == 'quick' else [-5, -1, 0, 1, 2, 3, 12, 23, 24, 25, 255, 256, 257, 1000]
@@ -94,6 +98,13 @@ def _admin_cases(tier):
         yield {'mode': mode, 'plen': plen, 'pseed': 1, 'pcrc': 1, 'ycrc': 1, 'ext': [], 'no_fragment': False, 'is_fragment': False,
                'mtu_kind': 'header', 'mtu_off': off, 'mtu_abs': 0, 'src': ['dtn', '//src/'], 'dest': ['dtn', '//far/away'],
                'ts': [1000, 1], 'flags': 0, 'policy': None, 'admin': True}
+
+
+def _unnumbered_cases(tier):
+    for policy, off in itertools.product((None, 'bib', 'bcb'), (3, 24, 256)):
+        yield {'mode': 'originate', 'plen': 1000, 'pseed': 1, 'pcrc': 1, 'ycrc': 2, 'ext': [], 'no_fragment': False, 'is_fragment': False,
+               'mtu_kind': 'header', 'mtu_off': off, 'mtu_abs': 0, 'src': ['dtn', '//src/'], 'dest': ['dtn', '//far/away'],
+               'ts': [1000, 1], 'flags': 0, 'policy': policy, 'admin': False, 'unnumbered': True}
 
 
 def _policy_cases(tier):
@@ -140,6 +151,8 @@ def build(case):
     else:
         pdata = strat9174.content(case['plen'], case['pseed']).hex()
     blocks.append(dict(type=1, num=1, flags=0, crc_type=case['ycrc'], data=pdata))
+    if case.get('unnumbered') and case.get('mode') == 'originate':
+        blocks[-1]['unnumbered'] = True
     src = case['src'] if r.eid_text(case['src']) != NODE else ['dtn', '//src/']
     pri = dict(version=7, flags=flags, crc_type=case['pcrc'], dest=case['dest'], src=src, rpt=['dtn', 'none'],
                ts=[int(case['ts'][0]), int(case['ts'][1])], lifetime=3600000, frag=frag)
